@@ -10,7 +10,9 @@ ops (positions are ints or None; bit operands are 0/1 strings, '-' = empty):
   find pat s e ba | rfind pat s e ba | findall pat s e count ba | startswith pat s e | endswith pat s e
   cut k s e count | replace old new s e count ba | insert v pos | overwrite v pos | append v | prepend v
   reverse s e | byteswap fmt s e repeat | rol n s e | ror n s e | shl n | shr n | ishl n | ishr n
-  read pos tok | peek pos tok | unpack toks | readlist pos toks | pack toks | value
+  read pos tok | peek pos tok | unpack toks | readlist pos toks | value
+  pack toks   (n/b/u positional bits/bin/uint, e uint:len=literal, v keyword value, l keyword length,
+               k/s/y bare keyword token holding a Bits / str / bytes; + lsb0 unpack/readlist/read round trip)
   seq  <M|L>:<op>:<arg>:… ; …        (a history on ONE object, the option toggled between the calls)
   tables                              (the two method tables of Options.set_lsb0)
 
@@ -455,6 +457,50 @@ def _tokcanon(kind, v):
     return str(v)
 
 
+def _pack_call(toks):
+    """format tokens, positional values and keyword arguments of a pack() call for the wire tokens.  kinds:
+      n bits (positional)   b bin:len (positional)   u uint:len (positional)   e uint:len=<literal>
+      v uint:len=<keyword value>   l uint:<keyword length> (positional value)
+      k / s / y  a BARE keyword token whose keyword argument is a Bits / a '0b…' str / a bytes object"""
+    fmt, vals, kw = [], [], {}
+    for i, (kind, b) in enumerate(toks):
+        if kind == "n":
+            fmt.append(f"bits:{len(b)}" if len(b) % 2 else "bits"); vals.append(mk("Bits", b))
+        elif kind == "b":
+            fmt.append(f"bin:{len(b)}"); vals.append(b)
+        elif kind == "u":
+            fmt.append(f"uint:{len(b)}"); vals.append(int(b, 2))
+        elif kind == "e":
+            fmt.append(f"uint:{len(b)}={int(b, 2)}")
+        elif kind == "v":
+            fmt.append(f"uint:{len(b)}=kv{i}"); kw[f"kv{i}"] = int(b, 2)
+        elif kind == "l":
+            fmt.append(f"uint:kn{i}"); kw[f"kn{i}"] = len(b); vals.append(int(b, 2))
+        elif kind == "k":
+            fmt.append(f"kw{i}"); kw[f"kw{i}"] = mk("Bits", b)
+        elif kind == "s":
+            fmt.append(f"kw{i}"); kw[f"kw{i}"] = ("0b" + b) if b else ""
+        elif kind == "y":
+            assert len(b) % 8 == 0
+            fmt.append(f"kw{i}"); kw[f"kw{i}"] = int(b, 2).to_bytes(len(b) // 8, "big") if b else b""
+        else:
+            raise ValueError(kind)
+    return fmt, vals, kw
+
+
+def _pack_roundtrip(toks):
+    """pack under lsb0, then give the values back with unpack, readlist and single reads (all under lsb0)"""
+    fmt, vals, kw = _pack_call(toks)
+    s = bitstring.pack(", ".join(fmt), *vals, **kw)
+    ufmt = [f"bits:{len(b)}" for _k, b in toks]
+    un = [wire(x) for x in s.unpack(", ".join(ufmt))] if ufmt else []
+    t = BitStream(s)
+    rl = [wire(x) for x in t.readlist(ufmt)] if ufmt else []
+    t2 = BitStream(s)
+    rd = [wire(t2.read(len(b))) for _k, b in toks]
+    return un, rl, rd
+
+
 def run_op(op, cls, s, a):
     """Perform `op` with the real library under the CURRENT option setting; returns canonical text.
     Mutating operations report the object's bits afterwards."""
@@ -571,16 +617,8 @@ def run_op(op, cls, s, a):
         return _g(lambda: st.readlist([_tokfmt(k, w) for k, w in toks]),
                   lambda r: (",".join(_tokcanon(t[0], v) for t, v in zip(toks, r)) if r else "-") + f" {st.pos}")
     if op == "pack":
-        toks = _ptoks(a[0])
-        fmt, vals = [], []
-        for kind, b in toks:
-            if kind == "n":
-                fmt.append(f"bits:{len(b)}" if len(b) % 2 else "bits"); vals.append(mk("Bits", b))
-            elif kind == "b":
-                fmt.append(f"bin:{len(b)}"); vals.append(b)
-            else:
-                fmt.append(f"uint:{len(b)}"); vals.append(int(b, 2))
-        return _g(lambda: bitstring.pack(", ".join(fmt), *vals), wire)
+        fmt, vals, kw = _pack_call(_ptoks(a[0]))
+        return _g(lambda: bitstring.pack(", ".join(fmt), *vals, **kw), wire)
     raise ValueError(op)
 
 
@@ -751,6 +789,8 @@ def execute(line):
         return out, extra
     with options(lsb0=True):
         out = run_op(op, cls, s, a)
+        if op == "pack" and out.startswith("ok"):
+            extra["roundtrip"] = guarded(lambda: _pack_roundtrip(_ptoks(a[0])), lambda r: repr(r))
         bitstring.options.lsb0 = False
         extra["msb0"] = run_op(op, cls, s, a)         # on -> op -> off -> op : must be the msb0 operation
     return out, extra
@@ -824,6 +864,11 @@ def oracle(line, out, extra):
     expm = expected(op, s, a, False)
     if extra.get("msb0") != expm:
         return f"after switching lsb0 off again: expected the msb0 result {expm}, got {extra.get('msb0')}"
+    if op == "pack" and "roundtrip" in extra:
+        vals = [b or "-" for _k, b in _ptoks(a[0])]
+        want = "ok " + repr((vals, vals, vals))
+        if extra["roundtrip"] != want:
+            return f"lsb0 unpack/readlist/read of the packed stream do not give the packed values back: {extra['roundtrip']} instead of {want}"
     return None
 
 
@@ -1085,14 +1130,27 @@ def gen_streams(rng, tier):
             toks = ",".join(ws) or "-"
             yield L("unpack", _acls(rng), s, toks)
             yield L("readlist", rng.choice(["ConstBitStream", "BitStream"]), s, rng.randint(0, n), toks)
-    for _ in range(600 if big else 150):
-        k = rng.randint(0, 5)
-        toks = []
-        for _j in range(k):
-            kd = rng.choice("nbu")
-            b = rand_bits(rng, rng.randint(0 if kd == "n" else 1, 9))
-            toks.append(kd + b)
-        yield SEP.join(["C12", "pack", "BitStream", "-", ",".join(toks) or "-"])
+    def ptok(kd):
+        if kd == "y":
+            return kd + rand_bits(rng, 8 * rng.randint(0, 2))
+        return kd + rand_bits(rng, rng.randint(0 if kd in "nks" else 1, 9))
+    kinds = "nbuevlksy"
+    # every kind at the first / middle / last position of 1..3 tokens, then every ordered pair of kinds
+    for kd in kinds:
+        yield SEP.join(["C12", "pack", "BitStream", "-", ptok(kd)])
+        for other in "ub":
+            yield SEP.join(["C12", "pack", "BitStream", "-", ",".join([ptok(kd), ptok(other)])])
+            yield SEP.join(["C12", "pack", "BitStream", "-", ",".join([ptok(other), ptok(kd)])])
+            yield SEP.join(["C12", "pack", "BitStream", "-", ",".join([ptok(other), ptok(kd), ptok("n")])])
+    for k1 in kinds:
+        for k2 in kinds:
+            yield SEP.join(["C12", "pack", "BitStream", "-", ",".join([ptok(k1), ptok(k2)])])
+            if big or rng.random() < 0.5:
+                yield SEP.join(["C12", "pack", "BitStream", "-", ",".join([ptok(rng.choice(kinds)), ptok(k1), ptok(k2)])])
+    yield SEP.join(["C12", "pack", "BitStream", "-", "-"])
+    for _ in range(2500 if big else 400):
+        k = rng.randint(1, 5)
+        yield SEP.join(["C12", "pack", "BitStream", "-", ",".join(ptok(rng.choice(kinds)) for _j in range(k))])
 
 
 def _plant(rng, n, t, places):
